@@ -29,11 +29,11 @@ pub static DEF_C02: CheckDef = CheckDef {
     id: "C02",
     run: run_c02,
     replay: replay_c02,
-    rule: "every defined encoding (501) as a one-instruction block (plus a fixed terminator when it is not one itself) x all 16 flag states (both outcomes of every conditional JP/JR/CALL/RET) x initial cycle counts {0, 5}; then sums over proptest-generated multi-instruction blocks (same generator as C01 layer 3). Compared: Registers.cycles after the translated block vs after interpreter::run_code_block. Through the emulator's own dispatch: the bank-switching cache-pressure program of C04, with the run of every bank ending at a different offset, so that the blocks of different banks differ in length (the translation area fills up and restarts several times while banks other than 1 are mapped) is block-stepped on the jit build and on the interpreter build, and last_block_cycle_length must agree after every block. Non-trivial = distinct (encoding, branch outcome) pairs plus distinct generated blocks with at least two instructions.",
+    rule: "every defined encoding (501) as a one-instruction block (plus a fixed terminator when it is not one itself) x all 16 flag states (both outcomes of every conditional JP/JR/CALL/RET) x initial cycle counts {0, 5}; then sums over proptest-generated multi-instruction blocks (same generator as C01 layer 3). Compared: Registers.cycles after the translated block vs after interpreter::run_code_block. Through the emulator's own dispatch: the bank-switching cache-pressure program of C04, with the run of every bank ending at a different offset, so that the blocks of different banks differ in length (the translation area fills up and restarts several times while banks other than 1 are mapped) is block-stepped on the jit build and on the interpreter build, and last_block_cycle_length must agree after every block. Restart probe (shared with C03): the translation area is filled to every level from 4 MiB up with blocks of chosen length, then a whole bank of DAA (the longest translation) runs, and bank 1 is executed at the address whose bank-2 block made the area restart; the cycle counts must be the interpreter's. Non-trivial = distinct (encoding, branch outcome) pairs plus distinct generated blocks with at least two instructions.",
     assumptions: &[
         "the interpreter's cycle counts are the reference (pinned to the published SM83 table by C06)",
     ],
-    required_classes: &["taken", "not-taken", "multi-instruction", "dispatch-under-cache-pressure", "translation-area-restarted"],
+    required_classes: &["taken", "not-taken", "multi-instruction", "dispatch-under-cache-pressure", "translation-area-restarted", "restart-probe"],
     exhaustive: false,
 };
 
@@ -1288,6 +1288,44 @@ fn run_c02(rec: &mut Rec) {
     if rec.ctx.shard == 1 || rec.ctx.nshards < 2 {
         pressure_cycles(rec, rec.ctx.tier.pick(700, 8000));
     }
+    {
+        let step = rec.ctx.tier.pick(0x20000usize, 0x4000);
+        let mut k = 0usize;
+        let mut target = 0x400000usize;
+        while target < 0x7f0000 {
+            if k % rec.ctx.nshards.max(1) == rec.ctx.shard && rec.ctx.shard % 2 == 0 && !rec.too_many() {
+                restart_probe_cycles(rec, target);
+            }
+            k += 2;
+            target += step;
+        }
+    }
+}
+
+/// C03's restart probe, judged on the cycle counts alone: the largest block entered at
+/// every fill level of the translation area, and bank 1 executed at the address whose bank-2
+/// block made the area restart
+fn restart_probe_cycles(rec: &mut Rec, target: usize) {
+    let case = json!({"kind": "restart-probe-cycles", "target": target});
+    rec.current(&case.to_string());
+    rec.eval(1);
+    rec.class("restart-probe", 1);
+    rec.nontrivial(fnv(case.to_string().as_bytes()));
+    match crate::checks::c03::restart_probe(target) {
+        Err(_) => rec.class("restart-probe-panicked (C03 reports it)", 1),
+        Ok(p) => {
+            let mut pairs = vec![("the whole bank of DAA under bank 1", 0x4000u16, &p.largest)];
+            if let Some(a) = &p.after_restart {
+                pairs.push(("bank 1 at the address whose bank-2 block made the area restart", p.last_filler_pc, a));
+            }
+            for (what, pc, (oj, oi)) in pairs {
+                if oj.cycles != oi.cycles {
+                    rec.violation("restart-probe-cycles", case.clone(), format!("{} (block at {:#06x}, {} bytes of the translation area in use): translated code charged {} machine cycles, the interpreter {}", what, pc, p.level, oj.cycles, oi.cycles));
+                    return;
+                }
+            }
+        }
+    }
 }
 
 fn pressure_cycles(rec: &mut Rec, steps: u32) {
@@ -1338,6 +1376,10 @@ fn pressure_cycles(rec: &mut Rec, steps: u32) {
 }
 
 fn replay_c02(case: &Value, rec: &mut Rec) {
+    if case.get("kind").and_then(|k| k.as_str()) == Some("restart-probe-cycles") {
+        restart_probe_cycles(rec, (case.get("target").and_then(|v| v.as_u64()).unwrap_or(0x500000) as usize).min(0x7f0000));
+        return;
+    }
     if case.get("kind").and_then(|k| k.as_str()) == Some("cache-pressure-cycles") {
         pressure_cycles(rec, case.get("steps").and_then(|v| v.as_u64()).unwrap_or(700) as u32);
         return;
